@@ -293,7 +293,7 @@ fn check_hash_coordinate(h0: u64, pos: &sp::Pos, r: &Board, probe: (usize, u8, u
     assert!(r.hash == h0 ^ (if before != after { pk } else { 0 }));
 }
 
-// @ob id=O2.1a props=C02,C05 tier=quick kind=proof weight=light fn="Board::make_move_new" desc="SYMBOLIC opponent king (all 64 squares at once), every placement (occupancy invariant, consistent en-passant state) and every move obeying the movement rules: result pieces/colours/combined/side/castle-rights equal the rule-prescribed successor s_apply; en passant recorded only after a double push beside an enemy pawn; men, pawns and rights never grow; &self untouched. Frame assumption of this quick form: the slider scan (fed by get_*_rays, here replaced by EMPTY so the loop vanishes) writes only checkers/pinned — discharged by O2.1a-havoc in the thorough tier"
+// @ob id=O2.1a props=C02,C05,C08 tier=quick kind=proof weight=light fn="Board::make_move_new" desc="SYMBOLIC opponent king (all 64 squares at once), every placement (occupancy invariant, consistent en-passant state) and every move obeying the movement rules: result pieces/colours/combined/side/castle-rights equal the rule-prescribed successor s_apply; en passant recorded only after a double push beside an enemy pawn; men, pawns and rights never grow; &self untouched. Frame assumption of this quick form: the slider scan (fed by get_*_rays, here replaced by EMPTY so the loop vanishes) writes only checkers/pinned — discharged by O2.1a-havoc in the thorough tier"
 #[kani::proof]
 #[kani::unwind(9)]
 #[kani::stub(crate::magic::get_bishop_rays, crate::vstubs::no_rays)]
@@ -372,7 +372,7 @@ pub(crate) fn pre_move_king(kc: usize, ksq: u8) -> (Board, sp::Pos, ChessMove, s
     (b, pos, m, mv)
 }
 
-// @ob id=O2.1b props=C02,C03,C04 tier=quick kind=proof gen=king qsel=4 unwind=30 weight=light stubs=geom fn="Board::make_move_new" desc="opponent king fixed on the instance square: for every placement and rule-obeying move, the incrementally computed checkers/pinned of the result equal the from-scratch eight-ray-walk spec of the result position (C03: check and pin information matches the position after every move)"
+// @ob id=O2.1b props=C02,C03,C04,C01 tier=quick kind=proof gen=king qsel=4 unwind=30 weight=light stubs=geom fn="Board::make_move_new" desc="opponent king fixed on the instance square: for every placement and rule-obeying move, the incrementally computed checkers/pinned of the result equal the from-scratch eight-ray-walk spec of the result position (C03: check and pin information matches the position after every move)"
 fn c02_mmn_checkpin(kc: usize, ksq: u8) {
     let (b, _pos, m, _mv) = pre_move_king(kc, ksq);
     let r = b.make_move_new(m);
@@ -383,7 +383,7 @@ fn c02_mmn_checkpin(kc: usize, ksq: u8) {
     kani::cover!(pin != 0);
 }
 
-// @ob id=O2.2a props=C02,C05 tier=quick kind=proof weight=light fn="Board::make_move" desc="second entry point, ANY prior content of the output board: same placement/side/rights/en-passant/material contract as O2.1a (symbolic king); &self untouched"
+// @ob id=O2.2a props=C02,C05,C08 tier=quick kind=proof weight=light fn="Board::make_move" desc="second entry point, ANY prior content of the output board: same placement/side/rights/en-passant/material contract as O2.1a (symbolic king); &self untouched"
 #[kani::proof]
 #[kani::unwind(9)]
 #[kani::stub(crate::magic::get_bishop_rays, crate::vstubs::no_rays)]
